@@ -2,6 +2,7 @@ package props
 
 import (
 	"fmt"
+	"go/token"
 
 	"golang.org/x/tools/go/ssa"
 
@@ -344,6 +345,45 @@ func C03(c *Ctx) {
 	if fn := c.Fn("", "oracle.hasConflict"); fn != nil {
 		conflictShape(c, r5, fn)
 	}
+	if fn := c.Fn("", "oracle.cleanupCommittedTransactions"); fn != nil {
+		// an intent entry is removed only when it still belongs to the pruned transaction
+		n := 0
+		AllInstrs(fn, false, func(in ssa.Instruction) {
+			call, ok := in.(*ssa.Call)
+			if !ok {
+				return
+			}
+			bi, ok := call.Call.Value.(*ssa.Builtin)
+			if !ok || bi.Name() != "delete" {
+				return
+			}
+			if o, f, ok := FieldOf(call.Call.Args[0]); !ok || o != "NoKV.oracle" || f != "intentTable" {
+				return
+			}
+			n++
+			guarded := false
+			for _, b := range fn.Blocks {
+				if ifi := ifOf(b); ifi != nil {
+					if bo, ok := ifi.Cond.(*ssa.BinOp); ok && bo.Op == token.EQL && fieldNameOf(bo.Y) == "ts" && EdgeDominates(b, b.Succs[0], call.Block()) {
+						guarded = true
+					}
+				}
+			}
+			c.Decide(guarded, r5, key(fn, fmt.Sprintf("intentTable-delete[%d]<-ts==txn.ts", n)), in.Pos(), 2, "an intent entry is dropped only if it still carries the pruned transaction's ts", "pruning an old committed transaction deletes the intent entry of its keys unconditionally: a newer commit's intent on the same key is erased and a later reader of that key is not detected")
+		})
+		// pruning threshold: txn.ts <= maxReadTs where maxReadTs = readMark.DoneUntil()
+		thr := false
+		for _, b := range fn.Blocks {
+			if ifi := ifOf(b); ifi != nil {
+				if bo, ok := ifi.Cond.(*ssa.BinOp); ok && bo.Op == token.LEQ && fieldNameOf(bo.X) == "ts" {
+					if call, ok := bo.Y.(*ssa.Call); ok && Named("utils.(*WaterMark).DoneUntil")(call.Common()) {
+						thr = true
+					}
+				}
+			}
+		}
+		c.Decide(thr, r5, key(fn, "prune:ts<=readMark.DoneUntil"), fn.Pos(), 1, "only transactions at or below the oldest active read timestamp are pruned", "the history pruning threshold is no longer `ts <= readMark.DoneUntil()`")
+	}
 	if fn := c.Fn("", "Txn.modify"); fn != nil {
 		ck := fieldStoresIn(fn, false, "NoKV.Txn", "conflictKeys")
 		pw := fieldStoresIn(fn, false, "NoKV.Txn", "pendingWrites")
@@ -437,6 +477,35 @@ func conflictShape(c *Ctx, rule string, fn *ssa.Function) {
 		}
 	})
 	c.Decide(lookups >= 1, rule, key(fn, "membership-lookup"), fn.Pos(), 1, "read fingerprints are looked up in committedTxn.conflictKeys", "no membership lookup in committedTxn.conflictKeys")
+	// the intent table is only a fast path: a "no conflict" answer is given either for an
+	// empty read set or after the committed-transaction history was scanned
+	var hist []ssa.Instruction
+	AllInstrs(fn, false, func(in ssa.Instruction) {
+		if u, ok := in.(*ssa.UnOp); ok && u.Op == token.MUL {
+			if o, f, ok := FieldOf(u.X); ok && o == "NoKV.oracle" && f == "committedTxns" {
+				hist = append(hist, in)
+			}
+		}
+	})
+	skip := map[[2]*ssa.BasicBlock]bool{}
+	for _, b := range fn.Blocks {
+		if ifi := ifOf(b); ifi != nil {
+			if bo, ok := ifi.Cond.(*ssa.BinOp); ok && bo.Op == token.EQL && isLenOfField(bo.X, "NoKV.Txn", "reads") {
+				skip[[2]*ssa.BasicBlock{b, b.Succs[0]}] = true
+			}
+		}
+	}
+	nf := 0
+	for i, r := range Returns(fn) {
+		k, ok := RetVal(r, 0).(*ssa.Const)
+		if !ok || k.Value == nil || k.Value.String() != "false" {
+			continue
+		}
+		nf++
+		reach, n := CutReach(fn, nil, r, hist, skip)
+		c.Decide(!reach && len(hist) > 0, rule, key(fn, fmt.Sprintf("return-false[%d]<-history-scan|empty-reads", i+1)), r.Pos(), n, "`no conflict` is answered only for an empty read set or after scanning committedTxns", "hasConflict can answer `no conflict` without scanning the committed-transaction history (the intent table is pruned independently, so a miss there proves nothing)")
+	}
+	c.Decide(nf >= 1, rule, key(fn, "returns-false"), fn.Pos(), 1, "has a no-conflict exit", "hasConflict never returns false")
 }
 
 func C04(c *Ctx) {
@@ -526,6 +595,11 @@ func C04(c *Ctx) {
 	}
 	ackAfterApply(c, r4)
 
+	const r6 = "K2.window-rebuild-keeps-pending"
+	watermarkWindowGroup(c, r6)
+	const r7 = "K1.watermark-publish-order"
+	c.Rule(r7, "WaterMark.Begin/BeginMany increment the pending counter of an index before publishing it as lastIndex")
+	watermarkPublishOrder(c, r7)
 	const r5 = "K13.commit-ts-done-once"
 	c.Rule(r5, "after a successful newCommitTs every continuation of commitAndSend reaches doneCommit(commitTs): the sendToWriteCh error return calls it, and the returned callback calls it after request.Wait on every path")
 	doneCommitPairing(c, r5)
@@ -731,6 +805,8 @@ func C05(c *Ctx) {
 	const r4 = "K1.watermark-publish-order"
 	c.Rule(r4, "WaterMark.Begin/BeginMany increment the pending counter of an index before publishing it as lastIndex (shared with C32)")
 	watermarkPublishOrder(c, r4)
+	const r5 = "K2.window-rebuild-keeps-pending"
+	watermarkWindowGroup(c, r5)
 }
 
 // versionFilter: advance skips entries with version > readTs (operator check).
